@@ -657,6 +657,10 @@ class C10(Base):
            "proj.perspective_s", "proj.perspective_deg", "proj.planar", "proj.planar_s", "proj.to_perspective"]
     oracle_ops = ["o.proj.ortho", "o.proj.frustum", "o.proj.perspective", "o.proj.planar", "o.proj.planar_focal"]
 
+    def native_runs(self, tier, seed):
+        # f32/f64: `planar` where IEEE infinities decide (fovy = 0: focal point at infinity; height = 0; 0/0)
+        return [narrow_run("nrc10", tier, seed)]
+
     def n_random(self, tier):
         return 40 if tier == "quick" else 1500
 
